@@ -283,7 +283,7 @@ Proof.
   wstep.
   (* posonly *)
   destruct (tuple_geb (version cs) [3; 8]) eqn:E38.
-  - destruct (zmem (magic_int cs) [3400; 3401; 3410; 3411]) eqn:Emg; repeat wstep.
+  - destruct (zmem (magic_int cs) [3400; 3401]) eqn:Emg; repeat wstep.
     all: destruct (tuple_geb (version cs) [3; 0]) eqn:E30; repeat wstep.
     all: destruct (tuple_geb (version cs) [3; 11]) eqn:E311; repeat wstep.
     all: destruct (tuple_geb (version cs) [2; 3]) eqn:E23; destruct (tuple_geb (version cs) [1; 3]) eqn:E13; destruct (tuple_geb (version cs) [1; 5]) eqn:E15;
